@@ -2,14 +2,17 @@ package sim
 
 import (
 	"bytes"
+	"context"
 	"fmt"
 	"time"
 
 	"github.com/plgd-dev/go-coap/v3/message"
 	"github.com/plgd-dev/go-coap/v3/message/codes"
+	"github.com/plgd-dev/go-coap/v3/message/pool"
 	"github.com/plgd-dev/go-coap/v3/mux"
 	coapNet "github.com/plgd-dev/go-coap/v3/net"
 	"github.com/plgd-dev/go-coap/v3/options"
+	"github.com/plgd-dev/go-coap/v3/tcp"
 	udpServer "github.com/plgd-dev/go-coap/v3/udp/server"
 
 	udpClient "github.com/plgd-dev/go-coap/v3/udp/client"
@@ -197,4 +200,170 @@ func c11ServerRun(e *Env) {
 	}
 	open()
 	e.Wait()
+}
+
+// C11 with the request limiter of the default configuration (one request at a time per connection): an application
+// goroutine has a request outstanding when a message arrives whose handler issues a nested request. The handler has to
+// wait for the application's request to finish - and that needs the connection to keep processing what arrives (the
+// awaited response of the application's request is a "later incoming message").
+func c11LimitedRun(e *Env) {
+	t := e.Tape
+	tr := PickTransport(t)
+	limit := int64(1 + t.Choose(2))
+	qsize := []int{16, 0, 1}[t.Choose(3)]
+	nstart := uint32(16)
+	if IsDatagram(tr) {
+		// NSTART (RFC 7252 4.7; default 1) is the other slot a confirmable request has to wait for
+		switch t.Choose(3) {
+		case 1:
+			nstart = 1
+		case 2:
+			nstart, limit = 1, 0
+		}
+	}
+	nApp := int(limit) // as many application requests as there are slots
+	if nApp == 0 {
+		nApp = 1
+	}
+	e.NoAutoRacy = true
+
+	type nested struct {
+		entered, returned bool
+		err               error
+	}
+	nst := &nested{}
+	router := mux.NewRouter()
+	router.DefaultHandle(mux.HandlerFunc(func(rw mux.ResponseWriter, r *mux.Message) {
+		if r.Code() == codes.Empty {
+			return
+		}
+		n := ParseNonce(&WMsg{Opts: Snapshot(r.Message).Opts})
+		if n != 0 {
+			return
+		}
+		e.mu.Lock()
+		nst.entered = true
+		e.mu.Unlock()
+		e.Notef("handler n=0: issues a nested request")
+		ctx, cancel := context.WithTimeout(context.Background(), 20*time.Second)
+		defer cancel()
+		resp, err := rw.Conn().Get(ctx, "/nested", QueryOpt(1000))
+		if resp != nil {
+			rw.Conn().ReleaseMessage(resp)
+		}
+		e.mu.Lock()
+		nst.returned, nst.err = true, err
+		e.mu.Unlock()
+		e.Notef("handler n=0: nested request returned err=%v", err != nil)
+		_ = rw.SetResponse(codes.Content, message.TextPlain, bytes.NewReader([]byte("done-0")))
+	}))
+	var w *CWorld
+	if IsDatagram(tr) {
+		cfg := SimUDPConfig(int32(t.Choose(65536)))
+		cfg.TransmissionNStart = nstart
+		cfg.TransmissionAcknowledgeTimeout = 2 * time.Second
+		cfg.TransmissionMaxRetransmit = 20
+		cfg.ReceivedMessageQueueSize = qsize
+		cfg.BlockwiseEnable = false
+		cfg.LimitClientParallelRequests = limit
+		cfg.LimitClientEndpointParallelRequests = 1
+		options.WithMux(router).UDPClientApply(&cfg)
+		w = NewCWorld(e, CWorldCfg{Transport: tr, UDP: cfg})
+	} else {
+		w = NewCWorld(e, CWorldCfg{Transport: tr, TCPOpts: []tcp.Option{
+			options.WithMux(router), options.WithReceivedMessageQueueSize(qsize), options.WithCloseSocket(),
+			options.WithLimitClientParallelRequest(limit), options.WithLimitClientEndpointParallelRequest(1),
+		}})
+	}
+	if w == nil {
+		return
+	}
+	e.Real("net/client.ReceivedMessageReader", "net/client/limitParallelRequests", "mux.Router (default handler)")
+	e.Wait()
+	w.Pump()
+	e.Logf("cfg transport=%s queue=%d limit=%d nstart=%d", tr, qsize, limit, nstart)
+
+	var appReqs, nestedReqs []*WMsg
+	w.OnRecv = func(m *WMsg) {
+		if m.Code < 1 || m.Code > 4 {
+			return
+		}
+		if n := ParseNonce(m); n >= 500 && n < 600 {
+			appReqs = append(appReqs, m)
+		} else if n == 1000 {
+			nestedReqs = append(nestedReqs, m)
+		}
+	}
+	answer := func(m *WMsg, pl string) {
+		var a *WMsg
+		if IsDatagram(tr) && m.Type == TCON {
+			a = &WMsg{Type: TACK, Code: 0x45, MID: m.MID, Token: m.Token, Payload: []byte(pl)}
+		} else {
+			a = &WMsg{Type: TNON, Code: 0x45, MID: w.NextPeerMID(), Token: m.Token, Payload: []byte(pl)}
+		}
+		it := w.Queue(a, "answer "+pl)
+		it.NoDup, it.NoDrop = true, true
+		w.Emit(it, false)
+		e.Wait()
+		w.Pump()
+	}
+	var calls []*Call
+	for i := 0; i < nApp; i++ {
+		i := i
+		c := e.NewCall(fmt.Sprintf("app%d", i), 500+i, nil, 60*time.Second)
+		calls = append(calls, c)
+		e.Start(c, func(ctx context.Context) (*pool.Message, error) {
+			return w.API.Get(ctx, fmt.Sprintf("/app%d", i), QueryOpt(500+i))
+		}, w.API.ReleaseMessage)
+		e.Wait()
+		w.Pump()
+	}
+	if len(appReqs) != nApp {
+		return // (never seen: every slot was free)
+	}
+	// the peer's request arrives while every request slot is taken by the application
+	it := w.Queue(&WMsg{Type: TNON, Code: 1, MID: 100, Token: []byte{0x11, 0}, Opts: []WOpt{{Num: OptURIPath, Val: []byte("peer")}, {Num: OptURIQuery, Val: []byte("n=0")}}}, "request n=0")
+	it.NoDup, it.NoDrop = true, true
+	w.Emit(it, false)
+	e.Wait()
+	w.Pump()
+	e.mu.Lock()
+	entered := nst.entered
+	e.mu.Unlock()
+	if !entered {
+		e.Violate("C11.R1", "message-never-dispatched", "the peer's request n=0 did not reach the handler")
+		return
+	}
+	e.Probe("nested.waitsForRequestSlot")
+	e.NonTrivial()
+	// later incoming messages: the answers to the application's requests
+	for i, m := range appReqs {
+		e.Logf("the peer answers the application's request %d", i)
+		answer(m, fmt.Sprintf("app-%d", i))
+	}
+	e.Sleep(time.Second)
+	w.Pump()
+	for i, c := range calls {
+		if !c.Done() {
+			e.Violate("C11.R4", "later-message-not-processed:handler-waits-for-request-slot", "the answer to the application's request %d was handed to the connection a second ago and the call has not returned: a handler that waits for a free request slot (limit %d, NSTART %d) to issue a nested request keeps the connection from processing what arrives", i, limit, nstart)
+			break
+		}
+	}
+	// with the slots free again the nested request goes out; the peer answers it
+	for i := 0; i < 3 && len(nestedReqs) == 0; i++ {
+		e.Sleep(time.Second)
+		w.Pump()
+	}
+	for _, m := range nestedReqs {
+		answer(m, "nested")
+	}
+	e.Sleep(time.Second)
+	e.mu.Lock()
+	ret := nst.returned
+	e.mu.Unlock()
+	if !ret && len(nestedReqs) > 0 {
+		e.Violate("C11.R4", "nested-operation-stalled:nested-get:limited", "the answer to the nested request was handed to the connection a second ago and the handler's call has not returned")
+	}
+	e.Sleep(70 * time.Second) // every context has expired by now
+	w.Pump()
 }
